@@ -4,7 +4,7 @@ from concurrent.futures import ThreadPoolExecutor
 from vlib import common
 
 THEOREMS = ["C07_px_formula", "C07_constants_nearest", "C07_within_one", "C07_alpha_and_range", "C07_monotone", "C07_no_wrap"]
-BRIDGES = ["BridgeYuv"]
+BRIDGES = ["BridgeYuv", "BridgeKYuv"]
 
 
 def blocks(thorough):
